@@ -6,6 +6,7 @@
 (d) 2..4 suspended streaming decoders stepped in a random interleaving vs each alone
 (e) 8 threads x 100 calls on shared objects vs the sequential outcomes (sampled schedules)
 (f) samples of (a)-(d) again with debug logging switched on
+(h) Python values encoded / natively decoded against shared guiding objects (schema and value objects)
 Correspondence: outcomes of the calls of (c) equal the pure Coq model's outcome for the call in isolation."""
 import json, threading
 from harness import core, codec, gen, universe as U, implrun as I, streams
@@ -538,6 +539,68 @@ def part_g(ctx, cases, tag=''):
                     ctx.prop_fail('encoding a changed decoded result does not carry the change', dict(m, der=e1[1].hex()))
 
 
+def part_h(ctx, cases, tag=''):
+    """(h) plain Python values encoded / decoded against SHARED guiding objects: a schema object, and value objects of the
+    type (any ASN.1 object may guide: DEFAULT components are value objects) holding ANOTHER value than the one encoded;
+    the guiding object's snapshot, abstract content and own encoding must not change, a second call must agree with the
+    first and with the same call guided by a fresh object"""
+    from pyasn1.codec.native import decoder as native_dec
+    g = gen.Gen(ctx.rng, depth=3)
+    for c in cases:
+        if 'any' in gen.features(c.T) or 'real' in gen.features(c.T):
+            continue
+        try:
+            py = native_enc.encode(codec.Case(c.T, c.v).obj)
+        except Exception:
+            continue
+        guides = [('schema object', U.build_type(c.T))]
+        for _ in range(2):
+            try:
+                v2 = g.val(c.T)
+                guides.append(('value object holding another value', codec.Case(c.T, v2).obj))
+            except Exception:
+                pass
+        # CHOICE nodes: a guiding value that holds each other alternative at the top
+        if base_desc(c.T)[0] == 'choice':
+            for i, alt in enumerate(base_desc(c.T)[1]):
+                try:
+                    guides.append(('value object holding alternative %d' % i, codec.Case(c.T, ('ch', i, g.val(alt))).obj))
+                except Exception:
+                    pass
+        for gname, guide in guides:
+            snap0 = deep_snap(guide)
+            own0 = I.run_encode('DER', guide)[:2] if getattr(guide, 'isValue', False) else None
+            m = {'T': jsonable(c.T), 'v': jsonable(c.v), 'part': 'h' + tag, 'guide': gname}
+            for name, opts in ENCODERS:
+                ctx.case(('h' + tag, name, str(opts), gname, c.cty, c.cval), True)
+                fresh = I.run_encode(name, py, asn1Spec=U.build_type(c.T), **opts)
+                r1 = I.run_encode(name, py, asn1Spec=guide, **opts)
+                r2 = I.run_encode(name, py, asn1Spec=guide, **opts)
+                what = None
+                if enc_outcome(r1) != enc_outcome(fresh):
+                    what = '%s encoding of a Python value guided by a %s differs from the same call guided by a fresh schema object' % (name, gname)
+                elif enc_outcome(r1) != enc_outcome(r2):
+                    what = 'a second %s encoding of the same Python value guided by the same object differs' % name
+                elif deep_snap(guide) != snap0:
+                    what = '%s encoding of a Python value changed its guiding object (%s)' % (name, gname)
+                elif own0 is not None and I.run_encode('DER', guide)[:2] != own0:
+                    what = '%s encoding of a Python value changed the DER encoding of its guiding value object' % name
+                if what:
+                    ctx.prop_fail(what, dict(m, codec=name, opts=opts)); break
+            else:
+                try:
+                    n1 = U.absval_top(native_dec.decode(py, asn1Spec=guide), c.T)
+                    n0 = U.absval_top(native_dec.decode(py, asn1Spec=U.build_type(c.T)), c.T)
+                except Exception as e:
+                    ctx.stats['native decode raising %s' % type(e).__name__] += 1
+                    continue
+                ctx.case(('h' + tag, 'native-decode', gname, c.cty, c.cval), True)
+                if not U.aval_eq(n1, n0):
+                    ctx.prop_fail('native decoding guided by a %s differs from the same call guided by a fresh schema object' % gname, m)
+                elif deep_snap(guide) != snap0:
+                    ctx.prop_fail('native decoding changed its guiding object (%s)' % gname, m)
+
+
 def open_type_decodes(ctx, n, tag=''):
     """DEFAULT SET OF / SEQUENCE OF ANY governed by an open type, left out of the substrate, decodeOpenTypes=True"""
     from pyasn1.type import namedtype, opentype
@@ -580,7 +643,7 @@ def run(ctx):
                 'sequential (the thread schedules are whatever the interpreter produced: sampled, not enumerated); (f) samples of (a)-(d),(g) with debug logging on; (g) SEQUENCE/SET types with DEFAULT SEQUENCE OF / SET OF '
                 'components (INTEGER, OCTET STRING, BOOLEAN, ANY, string, OID members; also SET OF/SEQUENCE OF ANY under an open type with '
                 'decodeOpenTypes) that the substrate leaves out: type object snapshot, repeated decodes, in-place edits of the instantiated '
-                'default in one result against the type, the other result, a further decode and the DER round trip')
+                'default in one result against the type, the other result, a further decode and the DER round trip; (h) plain Python values encoded (every codec) and natively decoded against shared guiding objects - a schema object and value objects of the type holding another value / each other CHOICE alternative: guide snapshot, second call, same call with a fresh guide')
     quick = ctx.tier != 'thorough'
     cases = codec.gen_cases(ctx, ctx.n(60, 500), depth=3)
     cases = [c for c in cases if c.want[0] != 'bad']
@@ -595,6 +658,7 @@ def run(ctx):
     part_e(ctx, cases[:40] if quick else cases[:120])
     dcases = default_list_cases(ctx, ctx.n(40, 400))
     part_g(ctx, dcases)
+    part_h(ctx, cases + [c for c in codec.presence_grid_cases(ctx, every=9 if quick else 2) if c.want[0] != 'bad'])
     open_type_decodes(ctx, ctx.n(30, 300))
     # (f) the same with the debug logger installed, then removed again
     sample = cases[:20] if quick else cases[:100]
